@@ -304,42 +304,45 @@ Fixpoint replay (sto : store) (m : cmem) (bs : list block) : store * cmem * list
   end.
 
 (* ---------------------------------------------------------------- concurrent commits: interleaving semantics *)
-(* A committing thread: pc 0 = before the pre-image; 1 = pre-image taken; 2 = operations applied and
-   block built (reads height/tip); 3 = done.  With the commit lock every thread runs 0->3 in one step. *)
-Record thr := Th { th_ops : list tx; th_ts : N; th_pc : N; th_snap : store; th_blk : option block; th_res : N }.
+(* A committing thread (past mark_committing and the size checks, with a non-empty operation list):
+   pc 0 = before the pre-image; 1 = pre-image taken; 2 = operations applied and block built (reads
+   height/tip and the clock); 3 = done.  A schedule is a list of (thread id, wall clock at that step).
+   With the commit lock (f_commit_locked) a thread runs 0 -> 3 in one atomic step. *)
+Record thr := Th { th_ops : list tx; th_pc : N; th_snap : store; th_blk : option block; th_res : N }.
 Record cst := CS { c_store : store; c_mem : cmem; c_thr : list (N * thr) }.
 
-Definition cstep (me emb : bytes) (s : cst) (i : N) : cst :=
+Definition cstep (me emb : bytes) (s : cst) (ev : N * N) : cst :=
+  let '(i, now) := ev in
   match aget (c_thr s) i with
   | None => s
   | Some t =>
       if f_commit_locked fl then
         if N.eqb (th_pc t) 3 then s
-        else let '(sto', m', e) := commit_core me emb (c_store s) (c_mem s) (th_ops t) (th_ts t) in
-             CS sto' m' (aset (c_thr s) i (Th (th_ops t) (th_ts t) 3 (th_snap t) None e))
+        else let '(sto', m', e) := commit_core me emb (c_store s) (c_mem s) (th_ops t) now in
+             CS sto' m' (aset (c_thr s) i (Th (th_ops t) 3 (th_snap t) None e))
       else
         match th_pc t with
-        | 0 => CS (c_store s) (c_mem s) (aset (c_thr s) i (Th (th_ops t) (th_ts t) 1 (c_store s) None 0))
+        | 0 => CS (c_store s) (c_mem s) (aset (c_thr s) i (Th (th_ops t) 1 (c_store s) None 0))
         | 1 => let d1 := apply_txs (s_data (c_store s)) (th_ops t) in
-               let blk := build_signed (c_mem s) me (th_ops t) (SR (Sto d1 (s_blocks (c_store s)) (s_meta (c_store s)))) emb [] (th_ts t) in
-               CS (Sto d1 (s_blocks (c_store s)) (s_meta (c_store s))) (c_mem s)
-                  (aset (c_thr s) i (Th (th_ops t) (th_ts t) 2 (th_snap t) (Some blk) 0))
+               let sto1 := Sto d1 (s_blocks (c_store s)) (s_meta (c_store s)) in
+               let blk := build_signed (c_mem s) me (th_ops t) (SR sto1) emb [] now in
+               CS sto1 (c_mem s) (aset (c_thr s) i (Th (th_ops t) 2 (th_snap t) (Some blk) 0))
         | 2 => match th_blk t with
                | None => s
                | Some blk =>
                    match append (s_blocks (c_store s)) (c_mem s) blk with
                    | inr (bm', m') =>
                        CS (Sto (s_data (c_store s)) bm' (Some (m_height m'))) m'
-                          (aset (c_thr s) i (Th (th_ops t) (th_ts t) 3 (th_snap t) None 0))
+                          (aset (c_thr s) i (Th (th_ops t) 3 (th_snap t) None 0))
                    | inl e =>
                        CS (th_snap t) (c_mem s)
-                          (aset (c_thr s) i (Th (th_ops t) (th_ts t) 3 (th_snap t) None e))
+                          (aset (c_thr s) i (Th (th_ops t) 3 (th_snap t) None e))
                    end
                end
         | _ => s
         end
   end.
-Definition crun (me emb : bytes) (s : cst) (sched : list N) : cst := fold_left (cstep me emb) sched s.
+Definition crun (me emb : bytes) (s : cst) (sched : list (N * N)) : cst := fold_left (cstep me emb) sched s.
 Definition cverify (s : cst) : N := verify_chain (s_blocks (c_store s)) (m_height (c_mem s)).
 
 End Model.
